@@ -28,7 +28,7 @@ import (
 func init() {
 	register("C17", checkC17)
 	// ---- frozen table of reviewed panic sites (function:kind:expression -> reason)
-	allowPanic("(*proxy.client).localIP:panic:t28", "listeners are created by resolveAndListen with network \"tcp\" only, so LocalAddr() is always *net.TCPAddr: configuration, not peer input")
+	allowPanic("(*proxy.client).localIP:panic:\"unhandled local address type\"", "listeners are created by resolveAndListen with network \"tcp\" only, so LocalAddr() is always *net.TCPAddr: configuration, not peer input")
 	allowPanic("(*proxy.request).handleErrorResult:typeassert:invoke (github.com/datastax/go-cassandra-native-protocol/frame.RawConverter).ConvertFromRawFrame#0.Body.Message.(message.Error)",
 		"only reached for opcode ERROR (rule C17.error-opcode); the library's error codec returns only types implementing message.Error")
 	allowPanic("(*proxycore.ClientConn).Handshake:index:startupKeysAndValues[(i+1)]", "i steps by 2 below len and the even length is checked at entry; the slice is built by the proxy, not by a peer")
@@ -39,19 +39,19 @@ func init() {
 	allowPanic("(*proxycore.ResultSet).Row:index:rs.result.Data[i]", "callers index below RowCount() (= len(Data)) or Row(0) after RowCount() > 0")
 	allowPanic("(*proxycore.connPool).leastBusyConn:index:p.conns[idx]", "idx is 0 or a range index over p.conns, read under connsMu with len(p.conns) > 1")
 	allowPanic("(*proxycore.connPool).stayConnected:index:p.conns[idx]", "idx < NumConns by construction of the start-up loop; conns has NumConns elements and is never resized")
-	allowPanic("(*proxycore.internalRequest).OnClose:panic:t5", "a registration is delivered at most one OnClose (C01.closing) into a channel of capacity 1")
-	allowPanic("(*proxycore.internalRequest).OnResult:panic:t5", "a registration is delivered at most one OnResult (C01.handoff: LoadAndDelete) into a channel of capacity 1")
+	allowPanic("(*proxycore.internalRequest).OnClose:panic:\"attempted to close request multiple times\"", "a registration is delivered at most one OnClose (C01.closing) into a channel of capacity 1")
+	allowPanic("(*proxycore.internalRequest).OnResult:panic:\"attempted to set result multiple times\"", "a registration is delivered at most one OnResult (C01.handoff: LoadAndDelete) into a channel of capacity 1")
 	allowPanic("(proxycore.Row).ByPos:index:r.resultSet.result.Metadata.Columns[i]", "i comes from columnIndexes, built by ranging over that same Columns slice")
 	allowPanic("(proxycore.Row).ByPos:index:r.row[i]", "the library decodes exactly ColumnCount values per row and ColumnCount column specs")
-	allowPanic("astra.copyTLSConfig$1:index:t1[0]", "crypto/tls invokes VerifyPeerCertificate only with at least one certificate (a server without certificate fails the handshake earlier)")
-	allowPanic("astra.copyTLSConfig$1:slice:t1[1:]", "same: at least one certificate")
+	allowPanic("astra.copyTLSConfig$1:index:make([]*x509.Certificate)[0]", "crypto/tls invokes VerifyPeerCertificate only with at least one certificate (a server without certificate fails the handshake earlier)")
+	allowPanic("astra.copyTLSConfig$1:slice:make([]*x509.Certificate)[1:]", "same: at least one certificate")
 	allowPanic("codecs.codecFromDataType:typeassert:dt.(*datatype.List)", "guarded by dt.Code()==List; in the library's datatype package code and concrete type agree")
 	allowPanic("codecs.codecFromDataType:typeassert:dt.(*datatype.Map)", "guarded by dt.Code()==Map")
 	allowPanic("codecs.codecFromDataType:typeassert:dt.(*datatype.Set)", "guarded by dt.Code()==Set")
 	allowPanic("proxy.nameBasedUUID:index:invoke (hash.Hash).Sum()[i]", "an MD5 digest has 16 bytes and i < 16")
 	allowPanic("proxycore.LookupEndpoint:index:net.LookupHost()#0[math/rand.Intn()]", "LookupHost returns at least one address when err == nil; Intn(n) < n")
-	allowPanic("proxycore.connectPool$1:index:t2[idx]", "idx < NumConns, the slice was made with NumConns elements")
-	allowPanic("proxycore.connectPool$1:index:t3[idx]", "idx < NumConns, the slice was made with NumConns elements")
+	allowPanic("proxycore.connectPool$1:index:*<*[]*proxycore.ClientConn>[idx]", "idx < NumConns, the slice was made with NumConns elements")
+	allowPanic("proxycore.connectPool$1:index:*errs[idx]", "idx < NumConns, the slice was made with NumConns elements")
 }
 
 func c17Roots(p *Prog) []*ssa.Function {
@@ -400,12 +400,21 @@ func c17NilStore(p *Prog, r *Report) {
 	}
 }
 
-func returnsFreshOnly(fn *ssa.Function) bool {
+func returnsFreshOnly(fn *ssa.Function) bool { return returnsFreshDepth(fn, 3) }
+
+func returnsFreshDepth(fn *ssa.Function, depth int) bool {
 	ok := fn.Blocks != nil
 	eachInstr(fn, func(in ssa.Instruction) {
 		if ret, isRet := in.(*ssa.Return); isRet && len(ret.Results) >= 1 {
 			for _, o := range origins(ret.Results[0]) {
-				if _, isAlloc := o.(*ssa.Alloc); !isAlloc {
+				switch x := o.(type) {
+				case *ssa.Alloc:
+				case *ssa.Call:
+					// a helper constructor that itself only returns fresh objects
+					if callee := x.Call.StaticCallee(); callee == nil || depth <= 0 || !returnsFreshDepth(callee, depth-1) {
+						ok = false
+					}
+				default:
 					ok = false
 				}
 			}
@@ -418,10 +427,32 @@ func c17OffenderOnly(p *Prog, r *Report) {
 	const rule = "C17.offender-only"
 	r.Rule(rule, "an error returned by a connection's receiver reaches only that connection's own error handler, which closes only its own socket and channel; the reader then notifies its own receiver")
 	conn := p.Named("proxycore", "Conn")
-	read := p.methodOf(conn, "read")
-	check := p.methodOf(conn, "checkErr")
+	// the reader: the Conn method that invokes Receiver.Receive; the error handler: the Conn
+	// method that is given Receive's result
+	var read, check *ssa.Function
+	for _, m := range p.methodsOf(conn) {
+		if callsDirectly(m, func(c ssa.CallInstruction) bool {
+			cm := c.Common()
+			return cm.IsInvoke() && cm.Method.Name() == "Receive" && recvNamedIs(cm.Method, "proxycore", "Receiver")
+		}) {
+			read = m
+		}
+	}
+	if read != nil {
+		eachCall(read, func(c ssa.CallInstruction) {
+			cm := c.Common()
+			if cm.IsInvoke() && cm.Method.Name() == "Receive" {
+				for _, ref := range *c.(ssa.Value).Referrers() {
+					if cc, ok := ref.(*ssa.Call); ok && cc.Call.StaticCallee() != nil && recvNamed(cc.Call.StaticCallee()) == conn {
+						check = cc.Call.StaticCallee()
+					}
+				}
+			}
+		})
+	}
 	if read == nil || check == nil {
-		fatalf("anchor: Conn.read/checkErr not found")
+		r.bad(rule, "Conn.read/checkErr", "", "the connection reader does not hand the receiver's error to an error handler of the same connection")
+		return
 	}
 	var bad []string
 	// the Receive result flows only into checkErr of the same receiver
